@@ -248,6 +248,18 @@ func runWorker(spec *meta.Spec, j *job, timeout time.Duration, v interface{}, ex
 	cmd.Dir = root
 	cmd.Env = append(os.Environ(), "VERIF_JOB_FILE="+jobFile)
 	cmd.Env = append(cmd.Env, extraEnv...)
+	if spec.Race {
+		// Race reports go to a file the worker parses after every run.
+		prefix := j.Out + ".race"
+		cmd.Env = append(cmd.Env, "GORACE=log_path="+prefix+" halt_on_error=0 atexit_sleep_ms=0", "VERIF_RACE_LOG="+prefix)
+		defer func() {
+			if ms, _ := filepath.Glob(prefix + ".*"); ms != nil {
+				for _, m := range ms {
+					os.Remove(m)
+				}
+			}
+		}()
+	}
 	var eb strings.Builder
 	cmd.Stderr = &eb
 	cmd.Stdout = &eb
@@ -512,10 +524,22 @@ func tail(s string, n int) string {
 // that the file reproduces class and digest in a fresh process.
 func minimiseAndRecord(spec *meta.Spec, tier string, base uint64, f found) (string, *replayFile, error) {
 	class := f.Result.Viol.Class()
-	sj := &job{Mode: "shrink", Prop: spec.ID, Tier: tier, Tape: f.Result.Tape, Class: class, MaxExec: 2000, MaxSec: 60}
 	so := &shrinkOut{}
-	if log, err := runWorker(spec, sj, 240*time.Second, so); err != nil {
-		return "", nil, fmt.Errorf("shrink of %s failed: %v\n%s", class, err, tail(log, 20))
+	if strings.Contains(class, "/data_race/") {
+		// The race detector reports one stack pair once per process, so a
+		// race cannot be re-observed (hence not shrunk) inside one worker:
+		// the original tape is replayed in fresh processes instead.
+		rr := &result{}
+		if log, err := runWorker(spec, &job{Mode: "replay", Prop: spec.ID, Tier: tier, Tape: f.Result.Tape}, 300*time.Second, rr); err != nil {
+			return "", nil, fmt.Errorf("replay of %s failed: %v\n%s", class, err, tail(log, 20))
+		}
+		so.Repro = rr.Viol != nil && rr.Viol.Class() == class
+		so.Result, so.FromLen, so.ToLen, so.Execs, so.GaveUp = rr, len(f.Result.Tape), len(rr.Tape), 1, "not shrunk: race reports are once-per-process"
+	} else {
+		sj := &job{Mode: "shrink", Prop: spec.ID, Tier: tier, Tape: f.Result.Tape, Class: class, MaxExec: 2000, MaxSec: 60}
+		if log, err := runWorker(spec, sj, 240*time.Second, so); err != nil {
+			return "", nil, fmt.Errorf("shrink of %s failed: %v\n%s", class, err, tail(log, 20))
+		}
 	}
 	if !so.Repro || so.Result == nil {
 		return "", nil, fmt.Errorf("violation %s (run %d, seed %d) did not reproduce when its tape was replayed: %s — reported as harness failure, not as a violation", class, f.Index, f.Seed, so.GaveUp)
